@@ -741,6 +741,11 @@ func (f *STFS) Rename(oldname, newname string) error {
 		return os.ErrInvalid
 	}
 
+	// An entry can't be moved into its own subtree
+	if strings.HasPrefix(newname, strings.TrimSuffix(oldname, "/")+"/") {
+		return os.ErrInvalid
+	}
+
 	source, err := inventory.Stat(
 		f.metadata,
 
